@@ -160,12 +160,25 @@ pub(crate) fn memo_macro(args: TokenStream, item: TokenStream) -> TokenStream {
     let output = quote! {
         #(#attrs)*
         #vis #new_sig {
+            // The signature hash alone does not identify the function: functions with textually
+            // identical signatures (in different modules, impl blocks or function bodies) would
+            // share cached results. Mix in the definition site (FNV-1a, evaluated at compile time).
+            const MEMO_FN_KEY: u64 = {
+                let site = concat!(module_path!(), ":", line!(), ":", column!()).as_bytes();
+                let mut key: u64 = #fn_hash;
+                let mut i = 0;
+                while i < site.len() {
+                    key = (key ^ site[i] as u64).wrapping_mul(0x100000001b3);
+                    i += 1;
+                }
+                key
+            };
             let _memo_span = ::tracing::debug_span!(#fn_name).entered();
             let mut param_ids = ::pico::macro_fns::init_param_vec();
             #(
                 #param_ids_blocks
             )*
-            let derived_node_id = ::pico::DerivedNodeId::new(#fn_hash.into(), param_ids);
+            let derived_node_id = ::pico::DerivedNodeId::new(MEMO_FN_KEY.into(), param_ids);
             let did_recalculate = ::pico::execute_memoized_function(
                 #db_arg,
                 derived_node_id,
